@@ -118,7 +118,7 @@ func genPlan(t *rapid.T) interface{} {
 	p.Coord = rapid.IntRange(1, p.Nodes).Draw(t, "coord")
 	for i := 0; i < p.Nodes; i++ {
 		l := fmt.Sprintf("f%d", i)
-		f := fault{Kind: rapid.SampledFrom([]string{"none", "none", "none", "down", "refuse", "slow", "stall", "reset-request", "reset-stream", "close-stream", "error-reply", "shards-disabled"}).Draw(t, l+".kind")}
+		f := fault{Kind: rapid.SampledFrom([]string{"none", "none", "none", "down", "refuse", "slow", "late", "stall", "reset-request", "reset-stream", "close-stream", "error-reply", "shards-disabled"}).Draw(t, l+".kind")}
 		f.K = int64(rapid.IntRange(0, 400).Draw(t, l+".k"))
 		p.Faults = append(p.Faults, f)
 	}
@@ -136,6 +136,12 @@ func genPlan(t *rapid.T) interface{} {
 		"SELECT sum(u), count(s) FROM m0, m1",
 		"SELECT s, bo FROM m1",
 		"SELECT last(s), first(bo) FROM m0 GROUP BY a",
+		// wildcards: the fields and tags are looked up on the owners of every shard
+		"SELECT * FROM m0",
+		"SELECT * FROM m1 GROUP BY *",
+		"SELECT count(*) FROM m0",
+		"SELECT f FROM m1 GROUP BY *",
+		"SELECT *::field FROM m0, m1",
 		"@storage.ReadFilter",
 		"@storage.ReadFilter",
 		"SHOW MEASUREMENTS",
@@ -453,7 +459,7 @@ func exec(run *core.Run, pl interface{}) {
 		case "error-reply":
 			c.Node(id).Store.Fail = true
 			run.Fault("node-error-reply")
-		case "stall", "reset-stream", "close-stream":
+		case "stall", "late", "reset-stream", "close-stream":
 			requestTimeOnly = false
 		}
 	}
@@ -471,6 +477,12 @@ func exec(run *core.Run, pl interface{}) {
 			pol.Fragment = int(1 + f.K%7)
 		case "stall":
 			pol.Stall = true
+		case "late":
+			// answers, but only after the asking node has given up (request
+			// and reply each take more than half the 5 s the simulated
+			// deployment allows); the connection stays open and the late
+			// reply does arrive on it
+			pol.Latency = 2500*time.Millisecond + time.Duration(1+f.K%3)*time.Second
 		case "reset-request":
 			pol.ResetC2S = f.K % 40
 		case "reset-stream":
@@ -495,6 +507,12 @@ func exec(run *core.Run, pl interface{}) {
 	}
 	coord := c.Node(uint64(p.Coord))
 	var closesFired int64
+	// the inter-node protocol is strict request/response without request
+	// ids: a reply that was sent before the current request arrived can only
+	// be the late answer to an earlier, abandoned request
+	c.Net.OnStaleReply = func(desc string) {
+		run.Fail("stale-reply-taken-for-answer", "", "%s", desc)
+	}
 	c.Net.OnFault = func(kind string) {
 		run.Fault("net-" + kind)
 		if kind == "close-mid-stream" {
